@@ -184,21 +184,25 @@ pub async fn ssl_request(stream: &mut TcpStream) -> Result<(), Error> {
 pub fn parse_params(mut bytes: BytesMut) -> Result<HashMap<String, String>, Error> {
     let mut result = HashMap::new();
     let mut buf = Vec::new();
-    let mut tmp = String::new();
+    let mut tmp = Vec::new();
 
     while bytes.has_remaining() {
         let mut c = bytes.get_u8();
 
         // Null-terminated C-strings.
         while c != 0 {
-            tmp.push(c as char);
+            tmp.push(c);
             c = bytes.get_u8();
         }
 
-        if !tmp.is_empty() {
-            buf.push(tmp.clone());
-            tmp.clear();
+        // An empty string in the place of a name ends the list; a value may be empty.
+        if tmp.is_empty() && buf.len() % 2 == 0 {
+            break;
         }
+
+        // The bytes are the client's text as it is, not one character per byte.
+        buf.push(String::from_utf8_lossy(&tmp).into_owned());
+        tmp.clear();
     }
 
     // Expect pairs of name and value
